@@ -1,12 +1,15 @@
 (* C06 — watch mode converges: the last change always ends up built.
-   Property theorems only; proofs are in Proofs/SysWatch.v, Proofs/AF_watch.v, Proofs/WatchKF1.v.
+   Property theorems only; proofs are in Proofs/SysWatch.v, Proofs/AF_watch.v, Proofs/WatchKF1.v, Proofs/AF_lastword*.v,
+   Proofs/SysFifo.v, Proofs/SysWatchLive*.v.
    Safety half (what is proved for every graph, change sequence and interleaving): a change notice or an out-of-date word
    from a dependency re-arms the target and is passed on to every requester; a run that was invalidated in flight is never
    acknowledged; an acknowledged target is not waiting to run again; a target does not start while the latest word from a
-   dependency is "out of date" (with C01). The convergence (liveness) half is decided on the real binary (props/C06.py).
+   dependency is "out of date" (with C01). Convergence: the system-level invariant C06_latest_word_tracks_availability and
+   the stuck-freedom theorem C06_quiescent_up_to_date (end of file) hold for every graph, change sequence and interleaving;
+   that a watch run does settle once changes stop (a bound on the rebuild cascade) is decided on the real binary (props/C06.py).
    KNOWN FINDING KF1: a change of a target's own declared input made while its script runs is absorbed by a skip; witness
    below, replayed on the real binary (defect D12). *)
-From Zinoma.Proofs Require Import SysWatch WatchKF1.
+From Zinoma.Proofs Require Import SysWatch WatchKF1 SysWatchLive2.
 From Zinoma.Model Require Import Incremental.
 
 Theorem C06_invalidation_rearms_and_propagates :
@@ -52,3 +55,51 @@ Theorem C06_change_during_own_build_absorbed_KF1 :
   c_phase (run_cycle kf1_hash ckey_eqb true kf1_cycle None None) = PEnd CyCompleted /\
   decide_skip kf1_hash kf1_new kf1_disk kf1_input None = true.
 Proof. exact kf1_change_during_build_absorbed. Qed.
+
+(* THE LATEST WORD TRACKS AVAILABILITY (repaired handlers; watch mode and one-shot alike; every closed acyclic graph, every
+   sequence of file changes, every interleaving). In every reachable state inside the root loop, for every target d and every
+   target R registered as a requester of d for a kind d runs: what R believes about d — the last Ok / out-of-date word from d
+   still waiting in R's inbox, or else what R has recorded — is exactly whether d can acknowledge now (a build or service:
+   its last execution completed and nothing invalidated it since; an aggregate: every dependency acknowledged).  No
+   acknowledgement and no out-of-date notice is ever lost, duplicated into a wrong state, or overtaken. *)
+Theorem C06_latest_word_tracks_availability :
+  forall (g : graph) (roots : list tid) (w : bool) (rank : tid -> nat),
+    (forall t k deps d, g !! t = Some (k, deps) -> d ∈ deps -> is_Some (g !! d)) ->
+    (forall t k deps d, g !! t = Some (k, deps) -> d ∈ deps -> (rank d < rank t)%nat) ->
+    forall s, reachable true w g roots s -> ph s = PRun ->
+    forall R aR d ad k, actors s !! R = Some aR -> actors s !! d = Some ad -> own ad k -> ATarget R ∈ reqs ad k ->
+      view s R aR k d = availb ad k.
+Proof. exact latest_word_tracks_availability. Qed.
+
+(* CONVERGENCE, the stuck-freedom half (repaired handlers, watch mode and one-shot alike, every closed acyclic graph, every
+   finite sequence of file changes at any moments, every interleaving): a reachable state inside the root loop in which
+   nothing can happen any more — every change notice, message and script result has been handled, no script is in progress —
+   and in which no target is in the failed state, is a state in which EVERY requested target is up to date: each build or
+   service has completed an execution that no later change or out-of-date notice has revoked (C06_invalidated_run_is_not_
+   acknowledged), each aggregate has every dependency acknowledged.  No target is left waiting forever for a word that will
+   not come, and no detected change is left unbuilt. *)
+Theorem C06_quiescent_up_to_date :
+  forall (g : graph) (roots : list tid) (w : bool) (rank : tid -> nat),
+    (forall t k deps d, g !! t = Some (k, deps) -> d ∈ deps -> is_Some (g !! d)) ->
+    (forall t k deps d, g !! t = Some (k, deps) -> d ∈ deps -> (rank d < rank t)%nat) ->
+    forall s, reachable true w g roots s -> ph s = PRun -> quiescent true w s = true -> none_failed s ->
+    forall d ad k, actors s !! d = Some ad -> own ad k -> reqs ad k <> ∅ -> availb ad k = true.
+Proof. exact quiescent_up_to_date. Qed.
+
+Theorem C06_none_failedb_spec : forall s, none_failedb s = true -> none_failed s.
+Proof. exact none_failedb_spec. Qed.
+
+(* the hypotheses are met after a change: `2: [1]` watched; first run, then the input of 1 changes: 1 is re-run, then 2; the
+   final state is quiescent, nothing failed, and the history shows both targets run twice *)
+Example C06_quiescent_after_change :
+  let g : graph := <[1%N := (ABuild, [])]> (<[2%N := (ABuild, [1%N])]> ∅) in
+  exists s,
+    run_labels true true (init_sys g [2%N])
+      [LDeliver 2%N true; LDeliver 1%N true; LDeliver 1%N true; LBuildDone 1%N RCompleted; LDeliver 2%N true;
+       LDeliver 2%N true; LDeliver 2%N true; LBuildDone 2%N RCompleted; LRoot; LRoot;
+       LChange [1%N];
+       LInval 1%N true; LBuildDone 1%N RCompleted; LDeliver 2%N true; LDeliver 2%N true; LBuildDone 2%N RCompleted;
+       LRoot; LRoot] = Some s /\
+    (quiescent true true s && is_running s && none_failedb s &&
+     bool_decide (hist s = [ObStart 1%N; ObSucc 1%N; ObStart 2%N; ObSucc 2%N; ObStart 1%N; ObSucc 1%N; ObStart 2%N; ObSucc 2%N])) = true.
+Proof. apply witness_intro. vm_compute. reflexivity. Qed.
